@@ -43,6 +43,12 @@ CHECKS = {
         note='only ASTs produced by the parser are in scope (as the property states); texts the parser rejects are counted and skipped',
         ref='DESIGN.md section 4, C06',
     ),
+    'C07': dict(
+        technique='fuzzing with an exception-class oracle through all five entry points (arbitrary Unicode, token-vocabulary sequences, token-level mutations of valid texts, type-chaotic valid syntax, annotation faults, deep nesting to depth 100), failures bucketed by (exception type, innermost hpl frame); stateful property-based testing (rule-based machine) of parser objects against fresh parser objects',
+        level='bounded exploration: thousands of inputs per run, about two thirds of which get past the lexer (measured and reported); every outcome must be an AST of the right kind or a documented error (ValueError only with an unknown function name in the text); parser objects are compared with fresh ones after arbitrary call histories of valid and invalid texts',
+        note='the recursion limit is held at the interpreter default relative to the call while the library runs; Lark\'s "expected one of" lists are compared as sets; an atheris campaign was not built (Hypothesis families are the decider)',
+        ref='DESIGN.md section 4, C07',
+    ),
     'C08': dict(
         technique='property-based differential evaluation: reference evaluator (exact rationals, three-valued connectives) on original vs simplify() output over a valuation grid; random type-directed terms plus exhaustive small-grammar enumeration',
         level='bounded exploration with a semantic oracle: every term of a small grammar (thorough tier: all ~2.5e5; quick tier: a seed-dependent 1/40 slice) and thousands of random terms to depth 5, each on up to 64/256 valuations including 0, 1, -1, equal/unequal pairs and empty arrays; value equality wherever the original is defined, type preservation, predicate/vacuity rule, and the raise-only-for-zero-divisor rule',
@@ -102,6 +108,18 @@ CHECKS = {
         level='bounded exploration with single-fault enumeration over generated cases: the valid pair must pass and every single-fault variant must raise (unknown field errors must name the field), at any depth and any position of the predicate, on own and alias paths; integer token bounds and all 128 TypeToken type values are checked exhaustively',
         note='a re-declaration counts as a fault only when the new type lies outside the type set the library inferred for that reference (as the property states); constants are not mutated',
         ref='DESIGN.md section 4, C17',
+    ),
+    'C18': dict(
+        technique='property-based differential: file parse vs per-part parse vs the model tree of each part (matcher oracle incl. exact annotations), generated whitespace joins; single-fault injection (invalid member, duplicate/unknown/misplaced annotation, empty file) with an exception-class oracle',
+        level='bounded exploration: thousands of files of 1-6 generated properties per run with every annotation subset/order, structurally equal neighbours with different annotations (within a file and across parses), and eight single-fault families; count, order, equality with stand-alone parses and exact metadata are checked against the text',
+        note='relies on C01 for the structure of each part; exception classes of offending members are fixed by construction (type / sanity / syntax) and verified on the member alone at start-up',
+        ref='DESIGN.md section 4, C18',
+    ),
+    'C19': dict(
+        technique='property-based differential of the CLI against the parser API and an independent JSON serialisation of the AST (strict decoder rejecting NaN/Infinity), in-process with captured streams plus a sampled real-process run',
+        level='bounded exploration: hundreds of (argv, input) cases per run over valid / syntax- / type- / sanity-invalid properties and files, two properties given to -p, empty and missing files, INF / NAN / overflowing bounds / non-ASCII strings, with and without -o json; exit status, diagnostics, absence of JSON on failure and field-by-field JSON equality are checked',
+        note='in-process runs call hpl.cli.main; 15 (quick) / 40 per shard (thorough) cases are executed as `python -m hpl` to tie the return value to the process exit status',
+        ref='DESIGN.md section 4, C19',
     ),
     'C20': dict(
         technique='small-scope exhaustive enumeration against a 7-bit integer model (generated-input search with a reference model)',
